@@ -25,10 +25,10 @@ PROPS = {
     'C09': _p(['E2', 'E3', 'E4']),
     'C10': _p(['E4', 'E3']),
     'C11': _p(['E3', 'E4']),
-    'C12': _p(['E3', 'E4', 'E5']),
+    'C12': _p(['E6', 'E3', 'E4', 'E5', 'E7']),
     'C13': _p(['E9']),
     'C14': _p(['E1', 'E2', 'E3', 'E9']),
-    'C15': _p(['E3', 'E5']),
+    'C15': _p(['E7', 'E6', 'E3', 'E5']),
 }
 
 ENGINE_INFO = {
@@ -40,6 +40,10 @@ ENGINE_INFO = {
            'kind': 'schedules and presentation: every TLC-enumerated right table x n_jobs values x presentation variants; results compared as multisets by TLC (EQ law) and validated against the envelope'},
     'E5': {'path': 'harness/vf/engines/e5.py + spec/GenCandsets.tla, TraceMatcher.tla',
            'kind': 'apply_matcher / filter_candset over every TLC-enumerated candidate set and missing pattern'},
+    'E6': {'path': 'harness/vf/engines/e6.py + spec/Session.tla, TraceSession.tla',
+           'kind': 'call histories: TLC model-checks the tokenizer switch/restore discipline and enumerates every history over an 18-call alphabet; each is replayed on the library with shared objects and compared with isolated runs'},
+    'E7': {'path': 'harness/vf/engines/e7.py + spec/Validation.tla, TraceValidation.tla',
+           'kind': 'validation matrix: entry point x violated preconditions x context enumerated by TLC, realised as calls, judged by TLC'},
     'E9': {'path': 'harness/vf/engines/e9.py + spec/TraceLaws.tla, TraceAPI.tla',
            'kind': 'relational laws (transposition, refinement, operator partition, join = filter + matcher, Position within Prefix and Size) on seeded random tables, tie-point witness tables and the bundled person/books data; joins on the random tables validated against the envelope'},
     'E3': {'path': 'harness/vf/engines/e3.py + spec/GenTables.tla, GenStrTables.tla, TraceAPI.tla, Semantics.tla',
